@@ -15,7 +15,7 @@ RULE = ('Hypothesis draws (signing key from a 25-key pool of RSA/DSA/ECDSA/EdDSA
         'byte surgery, and PGPy must not return a truthy verification. A case is non-trivial when the positive control was '
         'truthy, the reference rejects the mutated triple, and PGPy reached a verdict or raised; distinct by (algorithm, hash, '
         'kind, carrier, mutation class, target field).')
-RULE += ' Round-2 class: issuer re-pointed to an encryption-only (ECDH) subkey of the verifying certificate.'
+RULE += ' Round-2 class: issuer re-pointed to an encryption-only (ECDH) subkey of the verifying certificate. Round-3 / audit classes: a subject presented to a standalone or timestamp signature; the same photo attribute in another encoding (length form, reserved octets); undefined bits in flag subpackets; verification of a copy.copy() of the signature object as a further carrier.'
 ASSUMPTIONS = ['refpgp.sig (independent 5.2.4 implementation, self-tested on 62 GnuPG-made signatures) decides whether a mutation is semantic; '
                'mutations it still accepts are skipped as trivial', 'the left-16-bits field is not asserted (not named by the statement)',
                'DSA/ECDSA (r, n-s) malleability is excluded from the mutation set by construction',
